@@ -365,7 +365,7 @@ def _subsets(items):
 
 
 @harness('G6', targets=[f'{PROG}.State.from_storage', f'{PROG}.State.store', f'{PROG}.State.purge'],
-         props=['C02', 'C16', 'C14'],
+         props=['C02', 'C16', 'C14', 'C03'],
          clauses=['reads_exactly_owned_ids', 'state_iff_record', 'restart_independent',
                   'stores_exactly_changed', 'stores_full_record', 'flushes_last', 'no_other_storage_calls',
                   'purges_exactly_owned_states_subrefs'],
